@@ -497,39 +497,88 @@ Qed.
 (* the driver's operations are histories                               *)
 (* ------------------------------------------------------------------ *)
 
-Definition crun (k : nat) (s : mst) (ops : list op) : mst :=
-  fold_left (fun s o => fst (cstep k s o)) ops s.
+Fixpoint crun (k : nat) (w : faults) (s : mst) (ops : list op) : mst :=
+  match ops with
+  | [] => s
+  | o :: t => crun k (wnext w o) (fst (cstep k w s o)) t
+  end.
 
-Theorem driver_histories_are_histories k ops : forall s,
-  crun k s ops = mrun k s (flat_map expand ops).
+Theorem driver_histories_are_histories k ops : forall w s,
+  crun k w s ops = mrun k s (hist w ops).
 Proof.
-  unfold crun. induction ops as [|o t IH]; intro s; cbn [fold_left flat_map]; [reflexivity|].
+  induction ops as [|o t IH]; intros w s; cbn [crun hist]; [reflexivity|].
   rewrite run_app. rewrite IH. unfold cstep. cbn [fst]. reflexivity.
 Qed.
 
-Lemma gens_expand ops : gens (flat_map expand ops) = flat_map op_gens ops.
+Lemma gens_expand1 w o : gens (expand w o) = op_gens o.
+Proof. destruct o as [v f|  |v b|t'|t' f|t'| | |f|f d|f d|f d]; reflexivity. Qed.
+
+Lemma gens_hist ops : forall w, gens (hist w ops) = flat_map op_gens ops.
 Proof.
-  induction ops as [|o t IH]; cbn [flat_map]; [reflexivity|].
-  rewrite gens_app, IH. destruct o as [v f|  |v b|t'|t' f|t'| | |f]; cbn [expand gens op_gens app]; reflexivity.
+  induction ops as [|o t IH]; intro w; cbn [hist flat_map]; [reflexivity|].
+  rewrite gens_app, IH, gens_expand1. reflexivity.
+Qed.
+
+(* a fault window that is open decides the outcome of the call, one that is closed leaves it
+   to the operation; [d] calls after [Calls d] was set the window is closed again, a [Forever]
+   window never closes *)
+Lemma eff_open {A} (w : A * dur) (f : A) : active (snd w) = true -> eff w f = fst w.
+Proof. unfold eff. intro H. rewrite H. reflexivity. Qed.
+Lemma eff_closed {A} (w : A * dur) (f : A) : active (snd w) = false -> eff w f = f.
+Proof. unfold eff. intro H. rewrite H. reflexivity. Qed.
+Fixpoint ticks (m : nat) (d : dur) : dur :=
+  match m with 0 => d | S m' => tick (ticks m' d) end.
+Lemma tick_iter_calls (n m : nat) :
+  ticks m (Calls (N.of_nat n)) = Calls (N.of_nat (n - m)).
+Proof.
+  revert n. induction m as [|m IH]; intro n; cbn [ticks]; [rewrite Nat.sub_0_r; reflexivity|].
+  rewrite IH. cbn [tick]. f_equal. lia.
+Qed.
+Theorem window_lasts_exactly (n m : nat) :
+  active (ticks m (Calls (N.of_nat n))) = Nat.ltb m n /\
+  active (ticks m Forever) = true.
+Proof.
+  split.
+  - rewrite tick_iter_calls. cbn [active].
+    destruct (Nat.ltb_spec m n) as [H|H]; destruct (N.eqb_spec (N.of_nat (n - m)) 0) as [E|E];
+      cbn [negb]; try reflexivity; exfalso; lia.
+  - assert (E : ticks m Forever = Forever).
+    { induction m as [|m IH]; cbn [ticks]; [reflexivity|]. rewrite IH. reflexivity. }
+    rewrite E. reflexivity.
+Qed.
+
+(* while the Delete window is open with an error, GetNow hands out nothing: the single Delete
+   attempt of pool.go fails and the call returns the error *)
+Theorem failing_delete_hands_out_nothing k w s t f x :
+  active (snd (fw_del w)) = true -> fst (fw_del w) <> DelOk ->
+  snd (cstep k w s (GetEnd t f)) <> RVal x /\
+  handed (fst (cstep k w s (GetEnd t f))) = handed s.
+Proof.
+  intros Ha Hf. unfold cstep. cbn [expand fst snd mrun fold_left]. rewrite (eff_open _ f Ha).
+  cbn [mstep]. destruct (take_getter t (getters s)) as [[y g]|]; [|split; [discriminate|reflexivity]].
+  destruct (fst (fw_del w)); [contradiction| |]; cbn [fst snd handed]; split; try discriminate; reflexivity.
 Qed.
 
 (* what one operation hands out is what its observable result says *)
-Lemma cstep_handed k s o : handed (fst (cstep k s o)) = handed s ++ res_handed (snd (cstep k s o)).
+Lemma cstep_handed k w s o : handed (fst (cstep k w s o)) = handed s ++ res_handed (snd (cstep k w s o)).
 Proof.
-  unfold cstep. cbn [fst snd]. destruct o as [v f|  |v b|t|t f|t| | |f]; cbn [expand mrun fold_left].
+  unfold cstep. cbn [fst snd]. destruct o as [v f|  |v b|t|t f|t| | |f|f d|f d|f d]; cbn [expand mrun fold_left].
   - cbn [mstep fst snd]. rewrite (proj2 (push_all_frame k _ _)).
-    destruct f; cbn [mstep fst snd handed res_handed]; rewrite app_nil_r; reflexivity.
+    destruct (eff (fw_save w) f); cbn [mstep fst snd handed res_handed]; rewrite app_nil_r; reflexivity.
   - cbn [res_handed]. rewrite app_nil_r. reflexivity.
   - destruct b; cbn [mstep fst snd handed res_handed]; rewrite app_nil_r; reflexivity.
   - cbn [mstep fst snd]. rewrite (proj2 (push_all_frame k _ _)).
     destruct (pool s); [destruct (saved s)|]; cbn [fst snd handed res_handed]; rewrite app_nil_r; reflexivity.
   - cbn [mstep]. destruct (take_getter t (getters s)) as [[x g]|];
-      [destruct f|]; cbn [fst snd handed res_handed]; rewrite ?app_nil_r; reflexivity.
+      [destruct (eff (fw_del w) f)|]; cbn [fst snd handed res_handed]; rewrite ?app_nil_r; reflexivity.
   - cbn [mstep]. destruct (take_getter t (getters s)) as [[x g]|];
       cbn [fst snd handed res_handed]; rewrite ?app_nil_r; reflexivity.
   - cbn [mstep fst snd handed res_handed]. rewrite app_nil_r. reflexivity.
   - cbn [res_handed]. rewrite app_nil_r. reflexivity.
   - cbn [mstep fst snd handed res_handed]. rewrite app_nil_r. reflexivity.
+  - cbn [res_handed]. rewrite app_nil_r. reflexivity.
+  - cbn [res_handed]. rewrite app_nil_r. reflexivity.
+  - cbn [res_handed]. rewrite app_nil_r. reflexivity.
 Qed.
 
 (* ------------------------------------------------------------------ *)
@@ -552,14 +601,16 @@ Definition obs_fine (k : N) (ob : obs) : Prop :=
 
 Lemma obs_ok_elim k known hd ob :
   obs_ok k known hd ob = true ->
-  obs_fine k ob /\
+  obs_fine k ob /\ o_kept ob = false /\
   (forall x, In x (res_handed (o_res ob)) -> In x known /\ ~ In x hd) /\
   (forall x, In x (res_handed (o_res ob) ++ hd) -> ~ In x (o_store ob)).
 Proof.
-  unfold obs_ok. intro H. apply andb_prop in H. destruct H as [H H3]. apply andb_prop in H.
+  unfold obs_ok. intro H. apply andb_prop in H. destruct H as [H H4].
+  apply andb_prop in H. destruct H as [H H3]. apply andb_prop in H.
   destruct H as [H1 H2]. apply N.leb_le in H2. rewrite disjointb_spec in H3.
-  split; [|split].
+  split; [|split; [|split]].
   - split; [exact H2|]. destruct (o_res ob); try discriminate; split; discriminate.
+  - destruct (o_kept ob); [discriminate|reflexivity].
   - intros x Hx. destruct (o_res ob); cbn [res_handed] in Hx; try (destruct Hx; fail).
     destruct Hx as [E|[]]. subst. apply andb_prop in H1. destruct H1 as [Ha Hb].
     apply memN_In in Ha. split; [exact Ha|]. apply memN_false. destruct (memN x hd); [discriminate|reflexivity].
@@ -571,7 +622,7 @@ Lemma steps_ok_sound k : forall steps known hd,
   NoDup (handed_obs (map snd steps) ++ hd) /\
   (forall x, In x (handed_obs (map snd steps)) ->
              In x (flat_map (fun so => op_gens (fst so)) steps ++ known)) /\
-  (forall ob, In ob (map snd steps) -> obs_fine k ob) /\
+  (forall ob, In ob (map snd steps) -> obs_fine k ob /\ o_kept ob = false) /\
   (forall l1 ob l2, map snd steps = l1 ++ ob :: l2 ->
      forall x, In x (handed_obs (l1 ++ [ob])) \/ In x hd -> ~ In x (o_store ob)).
 Proof.
@@ -579,7 +630,7 @@ Proof.
   - cbn [map handed_obs flat_map app]. split; [exact Hnd|]. split; [intros x []|]. split; [intros ob []|].
     intros l1 ob l2 E. destruct l1; discriminate.
   - cbn [steps_ok] in Hok. apply andb_prop in Hok. destruct Hok as [Hob Ht].
-    apply obs_ok_elim in Hob. destruct Hob as [Hfine [Hrh Hdis]].
+    apply obs_ok_elim in Hob. destruct Hob as [Hfine [Hkept [Hrh Hdis]]].
     set (rh := res_handed (o_res ob)) in *.
     assert (Hnd' : NoDup (rh ++ hd)).
     { destruct (res_handed_cases (o_res ob)) as [E|[x [_ E]]]; fold rh in E; rewrite E; [exact Hnd|].
@@ -595,7 +646,7 @@ Proof.
       * apply J2 in Hx. apply in_app_or in Hx. apply in_or_app. destruct Hx as [Hx|Hx].
         -- left. apply in_or_app. right; exact Hx.
         -- apply in_app_or in Hx. destruct Hx as [Hx|Hx]; [left; apply in_or_app; left; exact Hx|right; exact Hx].
-    + intros ob' [E|Hin]; [subst; exact Hfine|apply J3; exact Hin].
+    + intros ob' [E|Hin]; [subst; split; [exact Hfine|exact Hkept]|apply J3; exact Hin].
     + intros l1 ob' l2 E x Hx. destruct l1 as [|ob0 l1'].
       * cbn [app] in E. inversion E; subst. apply Hdis. cbn [app handed_obs flat_map] in Hx.
         rewrite app_nil_r in Hx. fold rh in Hx. apply in_or_app. exact Hx.
@@ -612,47 +663,44 @@ Proof.
   destruct (steps_ok_sound _ _ _ _ H (NoDup_nil N)) as [J1 [J2 [J3 J4]]].
   cbn [map snd flat_map fst op_gens app] in J1, J2, J3, J4. rewrite app_nil_r in J1.
   unfold obs_list, case_gens.
-  split; [exact J1|]. split; [|split; [exact J3|]].
+  split; [exact J1|]. split; [|split; [intros ob Hob; exact (proj1 (J3 ob Hob))|split; [intros ob Hob; exact (proj2 (J3 ob Hob))|]]].
   { intros x Hx. apply J2 in Hx. apply in_app_or in Hx. apply in_or_app. tauto. }
   intros l1 ob l2 E x Hx. apply (J4 l1 ob l2 E x). left; exact Hx.
 Qed.
 
 (* ---- the model's own observations satisfy the executable property ---- *)
 
-Lemma gens_expand1 o : gens (expand o) = op_gens o.
-Proof. destruct o as [v f|  |v b|t'|t' f|t'| | |f]; reflexivity. Qed.
-
-Lemma cstep_res_fine k s o : snd (cstep k s o) <> RPanic /\ snd (cstep k s o) <> RNil.
+Lemma cstep_res_fine k w s o : snd (cstep k w s o) <> RPanic /\ snd (cstep k w s o) <> RNil.
 Proof.
-  unfold cstep. cbn [snd]. destruct o as [v f|  |v b|t|t f|t| | |f]; cbn [expand]; try (split; discriminate).
-  - destruct f; cbn [mstep snd]; split; discriminate.
+  unfold cstep. cbn [snd]. destruct o as [v f|  |v b|t|t f|t| | |f|f d|f d|f d]; cbn [expand]; try (split; discriminate).
+  - destruct (eff (fw_save w) f); cbn [mstep snd]; split; discriminate.
   - destruct b; cbn [mstep snd]; split; discriminate.
   - cbn [mstep]. destruct (pool s); [destruct (saved s)|]; cbn [snd]; split; discriminate.
-  - cbn [mstep]. destruct (take_getter t (getters s)) as [[x g]|]; [destruct f|]; cbn [snd]; split; discriminate.
+  - cbn [mstep]. destruct (take_getter t (getters s)) as [[x g]|]; [destruct (eff (fw_del w) f)|]; cbn [snd]; split; discriminate.
 Qed.
 
-Lemma one_gen_fresh s o known :
+Lemma one_gen_fresh w s o known :
   (forall x, In x (store s) \/ In x (handed s) -> In x known) ->
   (forall v, In v (op_gens o) -> ~ In v known) ->
-  fresh_hist s (expand o).
+  fresh_hist s (expand w o).
 Proof.
-  intros Hk Hf. rewrite <- gens_expand1 in Hf. split.
+  intros Hk Hf. rewrite <- (gens_expand1 w) in Hf. split.
   - rewrite gens_expand1. destruct o; cbn [op_gens]; repeat constructor; intros [].
   - intros v Hv. specialize (Hf v Hv). split; intro H; apply Hf; apply Hk; tauto.
 Qed.
 
-Lemma model_steps_ok k : forall ops s known hd,
+Lemma model_steps_ok k : forall ops w s known hd,
   Inv k s -> (forall x, In x hd <-> In x (handed s)) ->
   (forall x, In x (store s) \/ In x (handed s) -> In x known) ->
   NoDup (flat_map op_gens ops) -> (forall v, In v (flat_map op_gens ops) -> ~ In v known) ->
-  steps_ok (N.of_nat k) known hd (model_steps k s ops) = true.
+  steps_ok (N.of_nat k) known hd (model_steps k w s ops) = true.
 Proof.
-  induction ops as [|o t IH]; intros s known hd I Hhd Hk Hnd Hfr; cbn [model_steps steps_ok]; [reflexivity|].
+  induction ops as [|o t IH]; intros w s known hd I Hhd Hk Hnd Hfr; cbn [model_steps steps_ok]; [reflexivity|].
   cbn [flat_map] in Hnd, Hfr. apply NoDup_app_iff in Hnd. destruct Hnd as [Hnd1 [Hnd2 Hnd3]].
-  assert (Hfo : fresh_hist s (expand o)).
-  { apply (one_gen_fresh s o known Hk). intros v Hv. apply Hfr. apply in_or_app. left; exact Hv. }
-  set (s' := fst (cstep k s o)). set (r := snd (cstep k s o)).
-  assert (Es' : s' = mrun k s (expand o)) by reflexivity.
+  assert (Hfo : fresh_hist s (expand w o)).
+  { apply (one_gen_fresh w s o known Hk). intros v Hv. apply Hfr. apply in_or_app. left; exact Hv. }
+  set (s' := fst (cstep k w s o)). set (r := snd (cstep k w s o)).
+  assert (Es' : s' = mrun k s (expand w o)) by reflexivity.
   assert (I' : Inv k s') by (rewrite Es'; apply run_inv; assumption).
   assert (Eh : handed s' = handed s ++ res_handed r) by apply cstep_handed.
   assert (Hk' : forall x, In x (store s') \/ In x (handed s') -> In x (op_gens o ++ known)).
@@ -662,9 +710,9 @@ Proof.
   { intro x. rewrite Eh. split; intro H; apply in_app_or in H; apply in_or_app;
       (destruct H as [H|H]; [right|left]); try exact H; apply Hhd; exact H. }
   apply andb_true_intro. split.
-  - unfold obs_ok. cbn [model_obs o_res o_count o_store]. fold s' r.
-    apply andb_true_intro. split; [apply andb_true_intro; split|].
-    + destruct (cstep_res_fine k s o) as [Hp Hn]. fold r in Hp, Hn.
+  - unfold obs_ok. cbn [model_obs o_res o_count o_store o_kept]. fold s' r.
+    apply andb_true_intro. split; [apply andb_true_intro; split; [apply andb_true_intro; split|]|].
+    + destruct (cstep_res_fine k w s o) as [Hp Hn]. fold r in Hp, Hn.
       destruct r as [| |x|x| | |]; try reflexivity; try contradiction.
       apply andb_true_intro. split.
       * apply memN_In. apply Hk'. right. rewrite Eh. apply in_or_app. right. left; reflexivity.
@@ -674,6 +722,9 @@ Proof.
         exfalso. apply (Hd x Em). left; reflexivity.
     + apply N.leb_le. pose proof (inv_len k s' I'). lia.
     + apply disjointb_spec. intros x Hx. apply (inv_hs k s' I'). apply Hhd'. exact Hx.
+    + destruct r as [| |x|x| | |]; try reflexivity.
+      destruct (memN x (store s')) eqn:Em; [|reflexivity]. exfalso. apply memN_In in Em.
+      apply (inv_hs k s' I' x); [|exact Em]. rewrite Eh. apply in_or_app. right. left; reflexivity.
   - fold s' r. cbn [model_obs o_res]. apply IH; try assumption.
     intros v Hv Hin. apply in_app_or in Hin. destruct Hin as [Hin|Hin].
     + exact (Hnd3 v Hin Hv).
@@ -687,8 +738,8 @@ Proof.
   unfold spec_ok, model_case. cbn [c_k c_store0 c_obs0 c_steps steps_ok op_gens app].
   pose proof (boot_inv k st0 f H1) as I. destruct (boot_frame k st0 f) as [E1 E2].
   apply andb_true_intro. split.
-  - unfold obs_ok. cbn [model_obs o_res o_count o_store res_handed app disjointb forallb].
-    rewrite andb_true_r. cbn [andb]. apply N.leb_le. pose proof (inv_len k _ I). lia.
+  - unfold obs_ok. cbn [model_obs o_res o_count o_store o_kept res_handed app disjointb forallb negb].
+    rewrite !andb_true_r. cbn [andb]. apply N.leb_le. pose proof (inv_len k _ I). lia.
   - cbn [model_obs o_res res_handed app]. apply model_steps_ok; try assumption.
     + intro x. rewrite E2. tauto.
     + intros x [Hx|Hx]; [rewrite E1 in Hx; exact Hx|rewrite E2 in Hx; destruct Hx].
@@ -700,7 +751,23 @@ Qed.
 Example history_example :
   let ops := [Gen 1 SaveErr; Gen 2 SaveOk; Gen 3 SaveOk; GetBegin 1; GetEnd 1 DelOk; GetBegin 2;
               Restart ReadOk; GetBegin 3; GetEnd 3 DelOk] in
-  hist_ok [101%N] (flat_map expand ops) /\
-  handed (crun 1 (boot 1 [101%N] ReadOk) ops) = [101%N; 2%N] /\
+  hist_ok [101%N] (hist no_faults ops) /\
+  handed (crun 1 no_faults (boot 1 [101%N] ReadOk) ops) = [101%N; 2%N] /\
+  judge (model_case 1 [101%N] ReadOk ops) = Agree.
+Proof. vm_compute. repeat split. repeat constructor; cbn; intuition discriminate. Qed.
+
+(* a Delete fault that lasts three calls: 101 is received and not handed out three times (each
+   time it stays in the storage and the restart loads it again); the fourth attempt, after the
+   window has closed, hands it out once; draining the pool after one more restart yields
+   nothing more *)
+Example persistent_delete_example :
+  let get t := [GetBegin t; GetEnd t DelOk] in
+  let ops := [FaultDel DelErr (Calls 3)] ++ get 1%N ++ [Restart ReadOk] ++ get 2%N ++ [Restart ReadOk]
+             ++ get 3%N ++ [Restart ReadOk] ++ get 4%N ++ [Restart ReadOk] ++ get 5%N in
+  hist_ok [101%N] (hist no_faults ops) /\
+  handed (crun 1 no_faults (boot 1 [101%N] ReadOk) ops) = [101%N] /\
+  map (fun so => o_res (snd so)) (c_steps (model_case 1 [101%N] ReadOk ops)) =
+    [RNone; RInDel 101; RErr; RNone; RInDel 101; RErr; RNone; RInDel 101; RErr; RNone;
+     RInDel 101; RVal 101; RNone; REmpty; RNone] /\
   judge (model_case 1 [101%N] ReadOk ops) = Agree.
 Proof. vm_compute. repeat split. repeat constructor; cbn; intuition discriminate. Qed.
